@@ -350,8 +350,11 @@ func c19Case(c *Ctx, idx int) error {
 		case r < 92:
 			cur := []string{"CURA", "CURB", "CURB"}[rng.Intn(3)]
 			exec(c19Op{Kind: "buyBack", Sender: s.N(), Amount: z(int64(rng.Intn(200))), Cur: cur})
-		case r < 96:
+		case r < 95:
 			exec(c19Op{Kind: "setFee", Sender: fs.N(), Cur: []string{"TT", "CURA", "NOPE"}[rng.Intn(3)], A: z(shares[rng.Intn(len(shares))]), B: z(floors[rng.Intn(len(floors))]), C: z(caps[rng.Intn(len(caps))])})
+		case r < 98:
+			// a rate is updated while the business runs: its limits must survive
+			exec(c19Op{Kind: "setRate", Sender: iss.N(), Deal: []string{"buyToken", "buyBack"}[rng.Intn(2)], Cur: []string{"CURA", "CURB"}[rng.Intn(2)], A: z(int64(1 + rng.Intn(300000000)))})
 		default:
 			mn := int64(rng.Intn(100))
 			exec(c19Op{Kind: "setLimits", Sender: iss.N(), Deal: []string{"buyToken", "buyBack"}[rng.Intn(2)], Cur: "CURA", A: z(mn), B: z([]int64{0, mn + 50, mn}[rng.Intn(3)])})
